@@ -283,6 +283,7 @@ func (r *Report) writeEvidence(path, verifDir, tier string, seed int64, wall flo
 		"checker_cmd":        cmd,
 		"trusted_base":       append([]string{"go/types, go/ssa, go/packages of golang.org/x/tools v0.29.0", "the Go subset modelled by the checker's structured interpreters (anything else is reported as undecided)"}, r.Trusted...),
 		"not_decided":        r.Notes,
+		"renamed_anchors":    r.cur.AliasNotes,
 		"known_findings":     out.known,
 	}
 	for k, v := range r.Extra {
